@@ -80,10 +80,10 @@ def replay_sp_main_{L}(t):
     return [_replay_spelling(t, t, 0, True), _replay_spelling(t, "Main:" + t, 0, True), _replay_spelling(t, t.replace(" ", "_"), 0, True)]
 ''')
     # histories on the real store: first operation fixed per condition, the rest symbolic.
-    # quick: length 3 over all 10 operation kinds; thorough: length 4 over all 10, and length 5 over the 7 kinds
-    # CORE5 (without body read, content-model re-add and the lower-case redirect spelling): 14^4 histories per condition
-    CORE5 = [0, 1, 2, 3, 4, 6, 8]
-    plans = [(3, list(range(10)), "")] if quick else [(4, list(range(10)), ""), (5, CORE5, "c")]
+    # quick: length 3 over all 10 operation kinds; thorough: length 4 over all 10, and length 5 over the 8 kinds
+    # CORE5 (without body read, content-model re-add and the lower-case redirect spelling): 16^4 histories per condition
+    CORE5 = [0, 1, 2, 3, 4, 6, 8, 10]
+    plans = [(3, list(range(11)), "")] if quick else [(4, list(range(11)), ""), (5, CORE5, "c")]
     for n, kinds, sfx in plans:
         for op0 in kinds:
             for t0 in range(2):
@@ -135,7 +135,7 @@ def run(rep: C.Report) -> None:
         "yields the titles actually queried; CrossHair checks for every symbolic title (characters over {a,A,_,space,b}) and every spelling variant "
         "(prefix given/omitted/lower-case/alias, underscore vs space, lower-case first letter) that the written key is among the queried titles, and that a "
         "title differing in the case of a later letter is not. Read-after-write: on the REAL SQLite store and the REAL lru_cache, every history of "
-        "3 (thorough: 4, and 5 over a core of 7 kinds) operations from {add v1, add v2, add v1 with another content model, add redirect (target written in full / without the prefix / lower-case), get, exists, body, resolve-redirect} x 2 titles equals a dict model; the first operation is fixed "
+        "3 (thorough: 4, and 5 over a core of 7 kinds) operations from {add v1, add v2, add v1 with another content model, add redirect (target written in full / without the prefix / lower-case), get, exists, body, resolve-redirect, lookup of the same spelling in the main namespace (must stay absent)} x 2 titles equals a dict model; the first operation is fixed "
         "per condition and the solver drives the case split over the rest (said openly: finite enumeration by forks). CrossHair bypasses functools.lru_cache wrappers "
         "while tracing, so after the solver has chosen a history its operations run untraced, on the real memo; all lru_cache memos found on the class are cleared between histories."
     )
@@ -148,7 +148,7 @@ def run(rep: C.Report) -> None:
         }, timeout=90 if quick else 600, src=src, batch=4, twins=False, select="^sp_")
     # the history conditions only case-split in the solver and run the operations untraced (see harness): ~25 ms per history
     xh.check_harness(rep, H, {
-            "^hist": dict(name="Ob2/Ob3 read-after-write and one-hop redirect on the real store", functions=["core.py:Wtp.add_page", "core.py:Wtp.get_page", "core.py:Wtp.page_exists", "core.py:Wtp.get_page_resolve_redirect"], bounds="all histories of 3 operations over 10 operation kinds x 2 titles" if quick else "all histories of 4 operations over 10 operation kinds x 2 titles, and of 5 operations over 7 kinds (add v1/v2, redirect full/bare, get, exists, resolve) x 2 titles"),
+            "^hist": dict(name="Ob2/Ob3 read-after-write and one-hop redirect on the real store", functions=["core.py:Wtp.add_page", "core.py:Wtp.get_page", "core.py:Wtp.page_exists", "core.py:Wtp.get_page_resolve_redirect"], bounds="all histories of 3 operations over 11 operation kinds x 2 titles" if quick else "all histories of 4 operations over 11 operation kinds x 2 titles, and of 5 operations over 8 kinds (add v1/v2, redirect full/bare, get, exists, resolve, main-namespace lookup) x 2 titles"),
         }, timeout=90 if quick else 3600, src=src, batch=4 if quick else 1, twins=False, select="^hist")
 
 
